@@ -2,7 +2,8 @@
 # seed_regression.sh [tier] [seed-id...]: for every confirmed seeded change under /verif/seeded, apply it to /repo,
 # run the quick check of its property (C10-b: also C18, whose race pass is the detector), undo it, and record
 # whether a VIOLATION (not a KNOWN-FINDING) was reported. Writes seeded/REGRESSION.txt. Never run concurrently
-# with other checks: it edits /repo's working tree.
+# with other checks: it edits /repo's working tree. With SEED_WT=1 the change is applied in a scratch worktree instead
+# and the checks are pointed at it with VERIF_REPO (evidence files are restored afterwards).
 tier=${1:-quick}; shift
 cd /verif || exit 2
 seeds="$@"; [ -z "$seeds" ] && seeds=$(ls seeded | grep -E '^C[0-9]+-')
@@ -11,8 +12,15 @@ for s in $seeds; do
   prop=${s%%-*}; checks=$prop
   [ "$s" = "C10-b" ] && checks="C10 C18"
   [ "$s" = "C18-c" ] && checks="C18 C17"
-  if ! git -C /repo diff --quiet; then echo "/repo dirty"; exit 2; fi
-  git -C /repo apply /verif/seeded/$s/patch.rebased.diff 2>/dev/null || git -C /repo apply /verif/seeded/$s/patch.diff || { echo "$s patch-does-not-apply" >> $tmp; continue; }
+  target=/repo
+  if [ "${SEED_WT:-0}" = 1 ]; then
+    target=/tmp/seedwt-$s
+    git -C /repo worktree remove --force $target 2>/dev/null; rm -rf $target
+    git -C /repo worktree add -q --detach $target HEAD || exit 2
+    export VERIF_REPO=$target
+  fi
+  if ! git -C $target diff --quiet; then echo "$target dirty"; exit 2; fi
+  git -C $target apply /verif/seeded/$s/patch.rebased.diff 2>/dev/null || git -C $target apply /verif/seeded/$s/patch.diff || { echo "$s patch-does-not-apply" >> $tmp; [ $target != /repo ] && git -C /repo worktree remove --force $target; continue; }
   line="$s"
   for c in $checks; do
     t0=$(date +%s)
@@ -21,7 +29,7 @@ for s in $seeds; do
     first=$(echo "$o" | grep '^VIOLATION' | head -2 | sed 's/.*replay=.*replays\///' | tr '\n' ' ')
     line="$line | $c rc=$rc violations=$nv $(( $(date +%s) - t0 ))s $first"
   done
-  git -C /repo checkout -- .
+  if [ $target = /repo ]; then git -C /repo checkout -- .; else git -C /repo worktree remove --force $target; git -C /verif checkout -q -- evidence; fi
   echo "$line" | tee -a $tmp
 done
 # merge with the rows of seeds not re-run this time
